@@ -36,6 +36,7 @@ type Profile struct {
 	DupTaints    bool     // external taints may add a second taint under the same key (different effect)
 	OwnNodesOnly bool     // pods are bound only to nodes of the group they select (twin runs: keeps groups independent in the environment too)
 	Big          bool     // one large group: tens to a hundred-odd nodes, bulk environment steps, short histories
+	Linger       bool     // in half of the histories the groups keep listing instances as Terminating after an accepted termination
 	HugeMax      bool     // large-group variant: the group's headroom may be 1001 / 1501 / 2001 nodes (one request crosses the 1000 mark)
 	OddConfig    bool     // option values that validation does not look at may be odd (fleet time-out of 0, 1ns, unparsable)
 	BulkWhat     []string // bulk steps this profile concentrates on (nil = all kinds)
@@ -47,6 +48,9 @@ type Profile struct {
 func DrawConfig(rt *rapid.T, p *Profile) Config {
 	ng := rapid.IntRange(p.MinGroups, p.MaxGroups).Draw(rt, "groups")
 	cfg := Config{}
+	if p.Linger {
+		cfg.Linger = rapid.Bool().Draw(rt, "linger")
+	}
 	if p.Dry == 1 {
 		cfg.GlobalDry = rapid.IntRange(0, 9).Draw(rt, "globalDry") == 0
 	}
@@ -371,6 +375,8 @@ func (w *World) drawTargetPods(rt *rapid.T, g int, forceClass ...string) (Action
 			ps.EmptyAffinity = rapid.IntRange(0, 2).Draw(rt, "emptyAffinity") == 0
 		}
 		ps.Age = rapid.SampledFrom(podAges).Draw(rt, "podAge")
+		ps.Terminating = rapid.SampledFrom([]int64{0, 0, 0, 0, 0, -90, 600}).Draw(rt, "terminating")
+		ps.Tolerate = rapid.SampledFrom([]string{"", "", "", "", "all", "escalator"}).Draw(rt, "tolerate")
 		if len(all) > 0 && rapid.IntRange(0, 3).Draw(rt, "bound?") > 0 {
 			ps.Node = rapid.SampledFrom(all).Draw(rt, "podNode")
 			ps.BoundPending = rapid.IntRange(0, 3).Draw(rt, "boundPending") == 0
@@ -481,6 +487,9 @@ func (w *World) DrawAction(rt *rapid.T, p *Profile) (Action, string) {
 				Daemon: rapid.IntRange(0, 4).Draw(rt, "daemon") == 0, Split: rapid.IntRange(1, 2).Draw(rt, "split")}
 			ps.Age = rapid.SampledFrom(podAges).Draw(rt, "podAge")
 			ps.EmptyAffinity = ps.Via == "none" && rapid.IntRange(0, 2).Draw(rt, "emptyAffinity") == 0
+			ps.Terminating = rapid.SampledFrom([]int64{0, 0, 0, 0, -90, -1, 25, 600}).Draw(rt, "terminating")
+			ps.Tolerate = rapid.SampledFrom([]string{"", "", "", "all", "escalator"}).Draw(rt, "tolerate")
+			ps.Static = ps.Via == "none" && rapid.IntRange(0, 5).Draw(rt, "static") == 0
 			if rapid.IntRange(0, 5).Draw(rt, "init") == 0 {
 				ps.InitCPU, ps.InitMem = int64(rapid.IntRange(0, 5000).Draw(rt, "initCPU")), int64(rapid.IntRange(0, 5000).Draw(rt, "initMemMB"))*1_000_000
 			}
@@ -725,6 +734,13 @@ func (w *World) DrawAction(rt *rapid.T, p *Profile) (Action, string) {
 			seq = append(seq, Action{Op: "scan", Flag: true})
 			return Action{Op: "seq", Seq: seq}, "bulkAnd/" + what
 		}
+	case "raceOnWrite": // somebody else writes a node between escalator's read and its write (the write is refused once with a conflict)
+		tp, _ := w.drawTargetPods(rt, g, "zero", "belowL", "midLU", "aboveS", "farAboveS")
+		return Action{Op: "seq", Seq: []Action{
+			{Op: "fault", Faults: []sim.Fault{{Kind: sim.KUpdate, Nth: rapid.IntRange(0, 2).Draw(rt, "nth"), Count: rapid.SampledFrom([]int{1, 1, 2}).Draw(rt, "count")}},
+				Val: rapid.SampledFrom([]string{"cordon", "annotate", "foreignTaint", "otherReplica", "label"}).Draw(rt, "writer")},
+			tp, {Op: "scan", Flag: true},
+		}}, "raceOnWrite"
 	case "pinAsg": // the ASG is pinned (min == max) at or just below the group's node count while utilisation is low
 		if n := len(w.GroupNodeNames(g)); n > 0 {
 			pin := n - rapid.IntRange(0, 1).Draw(rt, "below")
@@ -754,6 +770,23 @@ func (w *World) DrawAction(rt *rapid.T, p *Profile) (Action, string) {
 		}
 	case "latency":
 		return Action{Op: "latency", D: rapid.SampledFrom([]time.Duration{0, 0, 100 * time.Millisecond, 400 * time.Millisecond, 1200 * time.Millisecond, 3 * time.Second}).Draw(rt, "d")}, "latency"
+	case "settle":
+		return Action{Op: "settle"}, "settle"
+	case "asgDeleting":
+		return Action{Op: "asgDeleting", Group: g}, "asgDeleting"
+	case "gracefulDelete":
+		if names := w.PodNames(); len(names) > 0 {
+			k := rapid.IntRange(1, minInt(3, len(names))).Draw(rt, "k")
+			return Action{Op: "gracefulDelete", Names: rapid.Permutation(names).Draw(rt, "pods")[:k], N: rapid.SampledFrom([]int{-120, -1, 30, 3600}).Draw(rt, "deadline")}, "gracefulDelete"
+		}
+	case "resizePod":
+		if names := w.PodNames(); len(names) > 0 {
+			return Action{Op: "resizePod", Names: []string{rapid.SampledFrom(names).Draw(rt, "pod")}, N: rapid.IntRange(1, 4000).Draw(rt, "cpu"), M: rapid.IntRange(1, 4000).Draw(rt, "memMB")}, "resizePod"
+		}
+	case "heartbeat":
+		if n, ok := needNode(); ok {
+			return Action{Op: "heartbeat", Node: n}, "heartbeat"
+		}
 	case "dupNode": // two node objects for one instance
 		return Action{Op: "oddNode", Group: g, Key: "dupprov", N: rapid.IntRange(0, 20).Draw(rt, "which")}, "dupNode"
 	case "noProvNode": // a node that registered before the cloud controller set its provider id
@@ -960,14 +993,18 @@ func (w *World) DrawAction(rt *rapid.T, p *Profile) (Action, string) {
 			if kind == sim.ATerminateInASG || kind == sim.AAttach {
 				nth = rapid.IntRange(0, 2).Draw(rt, "nth")
 			}
-			return Action{Op: "fault", Faults: []sim.Fault{{Kind: kind, Nth: nth}}}, "fault/cloud"
+			return Action{Op: "fault", Faults: []sim.Fault{{Kind: kind, Nth: nth, Code: rapid.SampledFrom(cloudErrorCodes).Draw(rt, "code"), Count: rapid.SampledFrom([]int{1, 1, 2, 3, 4}).Draw(rt, "count")}}}, "fault/cloud"
 		}
 		if p.FaultFocus == "node-writes" && rapid.IntRange(0, 3).Draw(rt, "focused") > 0 {
 			f := sim.Fault{Kind: rapid.SampledFrom([]string{sim.KGet, sim.KUpdate, sim.KGet, sim.KUpdate, sim.ATerminateInASG, sim.KDelete}).Draw(rt, "kind"), Nth: rapid.IntRange(0, 3).Draw(rt, "nth")}
 			if len(nodes) > 0 && rapid.Bool().Draw(rt, "byNode") {
 				f.Nth, f.Node = -1, rapid.SampledFrom(nodes).Draw(rt, "node")
 			}
-			return Action{Op: "fault", Faults: []sim.Fault{f}}, "fault/node-writes"
+			writer := ""
+			if f.Kind == sim.KUpdate { // the conflict has a cause: what the other writer did to the node
+				writer = rapid.SampledFrom([]string{"", "cordon", "annotate", "foreignTaint", "otherReplica", "label"}).Draw(rt, "writer")
+			}
+			return Action{Op: "fault", Faults: []sim.Fault{f}, Val: writer}, "fault/node-writes"
 		}
 		return w.drawFault(rt), "fault"
 	case "fleetPlan":
@@ -980,6 +1017,9 @@ func (w *World) DrawAction(rt *rapid.T, p *Profile) (Action, string) {
 			NeverReady: rapid.SampledFrom([]int{0, 0, 0, 1, 3}).Draw(rt, "never"),
 			PageSize:   rapid.SampledFrom([]int{1, 2, 7, 50}).Draw(rt, "page"),
 			StaggerMod: rapid.SampledFrom([]int{0, 0, 2, 3, 5}).Draw(rt, "stagger"),
+			ErrCode:    rapid.SampledFrom(sim.FleetErrorCodes).Draw(rt, "errCode"),
+			LateTail:   rapid.SampledFrom([]int{0, 0, 0, 1, 5}).Draw(rt, "lateTail"),
+			GoneState:  rapid.SampledFrom([]string{"", "", "stopped", "stopping", "shutting-down", "terminated"}).Draw(rt, "goneState"),
 		}
 		return Action{Op: "fleetPlan", Fleet: fp}, "fleetPlan"
 	case "oddNode":
@@ -1021,10 +1061,16 @@ func (w *World) drawFault(rt *rapid.T) Action {
 				f.Node = rapid.SampledFrom(names).Draw(rt, "node")
 			}
 		}
+		f.Code = rapid.SampledFrom(cloudErrorCodes).Draw(rt, "code")
+		f.Count = rapid.SampledFrom([]int{1, 1, 1, 3}).Draw(rt, "count")
 		fs = append(fs, f)
 	}
-	return Action{Op: "fault", Faults: fs, N: rapid.SampledFrom([]int{0, 0, 0, 1, 2}).Draw(rt, "failBuild")}
+	writer := rapid.SampledFrom([]string{"", "", "cordon", "annotate", "foreignTaint", "otherReplica"}).Draw(rt, "writer")
+	return Action{Op: "fault", Faults: fs, Val: writer, N: rapid.SampledFrom([]int{0, 0, 0, 1, 2}).Draw(rt, "failBuild")}
 }
+
+// cloudErrorCodes are AWS error codes an injected cloud failure may carry ("" = InternalFailure).
+var cloudErrorCodes = []string{"", "", "Throttling", "RequestLimitExceeded", "ThrottlingException", "ValidationError", "ServiceUnavailable", "RequestExpired"}
 
 func maxInt(a, b int) int {
 	if a > b {
